@@ -324,6 +324,15 @@ async def _rx_session(spec, sess):
     return {"events": sess.events, "msgs": [canon_msg(m) for m in produced], "final": final}
 
 
+def load_msg(s):
+    """A send's message: {"msg": <NMEA2000Message JSON>} or, compactly, {"basic": <basic-format string>}."""
+    from nmea2000.message import NMEA2000Message
+    if "basic" in s:
+        from nmea2000.decoder import NMEA2000Decoder
+        return NMEA2000Decoder().decode_basic_string(s["basic"], True)
+    return NMEA2000Message.from_json(s["msg"])
+
+
 # ------------------------------------------------------------------ send session (C19)
 async def _tx_session(spec, sess):
     from nmea2000.message import NMEA2000Message
@@ -375,7 +384,7 @@ async def _tx_session(spec, sess):
     sess.ev(["begin"])
     tasks = []
     for i, s in enumerate(spec["sends"]):
-        m = NMEA2000Message.from_json(s["msg"])
+        m = load_msg(s)
 
         async def one(i=i, m=m):
             try:
